@@ -100,6 +100,10 @@ def declared_bounds(layout, seed):
                 lo = -3.0 + 2.0 * i + 0.5 * j + 0.25 * s
                 hi = lo + 1.5 + 0.75 * j + i
             comps.append((lo, hi))
+        if info["vector"] and info["per"]:
+            # per-component boundaries are listed in NON-increasing order across the components (each pair still is
+            # (lower, upper)): a component must keep its own pair whatever the neighbours' values are
+            comps = comps[::-1]
         out.append(comps if (info["vector"] and info["per"]) else comps[0])
     return out
 
